@@ -6,7 +6,7 @@ STYLES = None
 SUITES = [Suite("prio2-det", prio.prio_generate(0.6, STYLES), prio.prio_project("C15"), prio.monitor_prio("C15"),
                 rule=prio.PRIO_RULE, version="v2", impl_ints=False, batch_timeout=600, shrink=prio.shrink_prio2)]
 
-SUITES.append(Suite("prio1-det", prio.prio1_generate(0.5, 0.0), prio.prio1_project("C15"), prio.monitor_prio1("C15"),
+SUITES.append(Suite("prio1-det", prio.prio1_generate_with_injection(0.5, 0.0, "fault"), prio.prio1_project("C15"), prio.monitor_prio1("C15"),
                     rule=prio.PRIO1_RULE, version="v1", impl_ints=False, batch_timeout=300, shrink=prio.shrink_prio1))
 ASSUMPTIONS = [
     "model: the scheduling goroutine as a program-counter machine (Prio2.sched_step) over FIFO-list channels; the driver of Prio2Sim.v "
